@@ -46,8 +46,13 @@ def main(argv):
             os._exit(core.EXIT_ANALYSIS)
     signal.signal(signal.SIGALRM, _timeout)
     signal.alarm(int(os.environ.get("XFAB_BUDGET_S", "900" if tier == "quick" else "3600")))
+    # a deterministic bound on the algebra as well (monomial products formed by polynomial multiplications): an expression
+    # blow-up ends as an analysis error with the rule instances decided so far, not as a time-out
+    from xfabsa import poly as _poly
+    _poly._WORK[0], _poly._WORK[1] = 0, int(float(os.environ.get("XFAB_WORK", "2e8" if tier == "quick" else "2e9")))
     try:
         explanation = mod.run(ctx)
+        ctx.extra["monomial_products"] = _poly._WORK[0]
         if tier == "thorough" and not os.environ.get("XFAB_SELFTEST_CHILD"):
             # the thorough tier also tests the checker both ways on the self-test variants of this property
             from concurrent.futures import ThreadPoolExecutor
@@ -73,6 +78,15 @@ def main(argv):
             still = [f for f in ctx.fails if f["key"] in want]
             print("replay: %d of %d recorded instances still fail" % (len(still), len(want)))
         return core.finish(ctx, explanation, exhaustive=getattr(mod, "EXHAUSTIVE", None))
+    except _poly.WorkLimit:
+        e = core.AnalysisError("the algebra exceeds the work limit of the %s tier (%d monomial products)" % (tier, _poly._WORK[1]))
+        known = {k["key"] for k in core.load_known().get("known", []) if k.get("property") == pid}
+        if any(f["key"] not in known for f in ctx.fails):
+            print("ANALYSIS-INCOMPLETE property=%s %s (the rule instances decided before this point are reported)" % (pid, e))
+            ctx.notes.append("analysis incomplete: %s" % e)
+            return core.finish(ctx, "INCOMPLETE RUN: %s" % e)
+        print("ANALYSIS-ERROR property=%s %s" % (pid, e))
+        return core.EXIT_ANALYSIS
     except core.AnalysisError as e:
         # rule instances decided before the unreadable construct stand: a definite violation is still a violation
         known = {k["key"] for k in core.load_known().get("known", []) if k.get("property") == pid}
